@@ -81,3 +81,67 @@ Definition run_estimator (op : N) (a : list Z) : list Z :=
   | 4%N => let r := f_var_inv_std_grad (f 0%nat) (f 1%nat) (f 2%nat) (f 3%nat) in [to_bits (fst r); to_bits (snd r)]
   | _ => []
   end.
+
+(* ------------------------------------------------------------------------------------------ *)
+(* binary64 RunningVariance over a window and the transformation it installs (one coordinate); *)
+(* used by the C09 content tie (tools/props/schedule.py)                                        *)
+(* ------------------------------------------------------------------------------------------ *)
+Definition frv := (f64 * f64 * N)%type.          (* mean, accumulated variance, count *)
+Definition frv0 : frv := (fzero, fzero, 0%N).    (* RunningVariance::new: math.new_array() is zeros *)
+
+(* RunningVariance::add_sample: the first sample is copied into the mean, every later one goes
+   through array_update_variance with diff_scale = (count as f64).recip() *)
+Definition frv_add (s : frv) (x : f64) : frv :=
+  let '(m, v, c) := s in
+  let c' := (c + 1)%N in
+  if (c' =? 1)%N then (x, v, c')
+  else let p := f_update_variance m v x (frecip (f_of_N c')) in (fst p, snd p, c').
+
+(* DiagAdaptStrategy::adapt + DiagMassMatrix::update_diag_draw_grad / update_diag_draw for a
+   foreground estimator whose draw / gradient accumulators are sx / sg (fill_invalid = None, clamp
+   (lo, hi)); result [std; inv_std; mean] (bits).
+   grad based: scales from sqrt(draw_var / grad_var), mean = std*std*grad_mean + draw_mean;
+   draw based: scales from draw_var * (count as f64).recip(), mean = draw_mean. *)
+Definition diag_install (grad_based : bool) (old_std old_inv lo hi : f64) (sx sg : frv) : list Z :=
+  let '(dmean, dvar, count) := sx in
+  let '(gmean, gvar, _) := sg in
+  if grad_based then
+    let r := f_var_inv_std_draw_grad old_std old_inv dvar gvar None lo hi in
+    [to_bits (fst r); to_bits (snd r); to_bits (fadd (fmul (fmul (fst r) (fst r)) gmean) dmean)]
+  else
+    let r := f_var_inv_std_draw old_std old_inv dvar (frecip (f_of_N count)) None lo hi in
+    [to_bits (fst r); to_bits (snd r); to_bits dmean].
+
+(* One estimator lifetime, one coordinate: the samples xs (positions) and gs (gradients; empty when
+   the estimate is draw based) are added one by one starting from fresh accumulators; `reqs` lists,
+   in increasing order, the sample counts at which the transformation was updated together with
+   the (std, inv_std) installed before (kept when the new value is invalid).  One
+   [std; inv_std; mean] per request. *)
+Fixpoint diag_window_run (grad_based : bool) (lo hi : f64) (sx sg : frv) (xs gs : list Z)
+  (reqs : list (N * (Z * Z))) : list (list Z) :=
+  match xs with
+  | [] => []
+  | x :: xs' =>
+      let sx' := frv_add sx (of_bits x) in
+      let sg' := match gs with g :: _ => frv_add sg (of_bits g) | [] => sg end in
+      let gs' := tl gs in
+      match reqs with
+      | [] => []
+      | (n, (os, oi)) :: reqs' =>
+          if (n =? snd sx')%N
+          then diag_install grad_based (of_bits os) (of_bits oi) lo hi sx' sg'
+               :: diag_window_run grad_based lo hi sx' sg' xs' gs' reqs'
+          else diag_window_run grad_based lo hi sx' sg' xs' gs' reqs
+      end
+  end.
+Definition diag_window (grad_based : bool) (lo hi : Z) (xs gs : list Z) (reqs : list (N * (Z * Z)))
+  : list (list Z) :=
+  diag_window_run grad_based (of_bits lo) (of_bits hi) frv0 frv0 xs gs reqs.
+
+(* Strategy::init + DiagMassMatrix::update_diag_grad at the initial point:
+   a = [position; gradient; fill; lo; hi] -> [std; inv_std; mean] *)
+Definition diag_install_init (a : list Z) : list Z :=
+  let f (i : nat) := of_bits (nth i a 0%Z) in
+  let r := f_var_inv_std_grad (f 1%nat) (f 2%nat) (f 3%nat) (f 4%nat) in
+  [to_bits (fst r); to_bits (snd r);
+   to_bits (fadd (fmul (fmul (fst r) (fst r)) (f 1%nat)) (f 0%nat))].
